@@ -160,4 +160,39 @@ def slice (e : Box) (vars : List Nat) (w : List Rat) : Box :=
 def refutedSlice (eqs : List (List Dag × Dag)) (e : Box) (vars : List Nat) (w : List Rat) (depth : Nat) : Bool :=
   ratParamsIn vars w e && noZero eqs depth (slice e vars w)
 
+/-! ### existence for every parameter value, by subdivision of the parameter ranges -/
+
+/-- the box with its coordinate `i` replaced by `J` -/
+def setAt (e : Box) (i : Nat) (J : Itv) : Box :=
+  e.zipIdx.map fun (q : Itv × Nat) => if q.2 == i then J else q.1
+
+/-- the widest bounded parameter coordinate (not in `vars`) with its bounds -/
+def widestParam (e : Box) (vars : List Nat) : Option (Nat × Rat × Rat) :=
+  e.zipIdx.foldl (fun (acc : Option (Nat × Rat × Rat)) (q : Itv × Nat) =>
+    if vars.contains q.2 then acc else
+    match q.1 with
+    | .mk (.fin a) (.fin b) =>
+      if b ≤ a then acc else
+      (match acc with
+       | none => some (q.2, a, b)
+       | some (_, a0, b0) => if b - a > b0 - a0 then some (q.2, a, b) else acc)
+    | _ => acc) none
+
+/-- existence certificate on the box, or on both halves of the box cut at the middle of a parameter range
+    (recursively, depth ≤ d) -/
+def existSplit (eqs : List (List Dag × Dag)) (vars : List Nat) : Nat → Box → Bool
+  | 0, e => Newton.existCertVars eqs e vars
+  | d + 1, e => Newton.existCertVars eqs e vars ||
+    (match widestParam e vars with
+     | some (i, a, b) =>
+       !vars.contains i && decide (a ≤ b) && decide (e[i]? = some (.mk (.fin a) (.fin b))) &&
+       existSplit eqs vars d (setAt e i (.mk (.fin a) (.fin ((a + b) / 2)))) &&
+       existSplit eqs vars d (setAt e i (.mk (.fin ((a + b) / 2)) (.fin b)))
+     | none => false)
+
+/-- CERTIFICATE (under-constrained systems): existence for every parameter value of `e` by subdivision of the
+    parameter ranges, uniqueness certificate on `u`, `e ⊆ u` -/
+def certifiedSplit (eqs : List (List Dag × Dag)) (e u : Box) (vars : List Nat) (depth : Nat) : Bool :=
+  pointConsts eqs && existSplit eqs vars depth e && Box.subset e u && Newton.uniqueCertVars eqs u vars
+
 end Ibex.Verdict
